@@ -239,6 +239,9 @@ class Sem:
         if k == "Array":
             el = self._cap(self._enum(t[1], uni, depth - 1, cap), 5)
             out = [ARR([])] + [ARR([x]) for x in el] + [ARR([x, y]) for x in el[:3] for y in el[:3]]
+            # three and four elements (an array may have to escape several tuple alternatives at different positions)
+            out += [ARR([x, y, z]) for x in el[:3] for y in el[:3] for z in el[:3]]
+            out += [ARR([x, y, y, x]) for x in el[:2] for y in el[:2]] + [ARR([x, y, x, y]) for x in el[:2] for y in el[:2] if x != y]
             if el: self.exhaustive = False      # longer arrays exist
             return self._cap(out, cap)
         if k == "Tuple":
